@@ -3,6 +3,6 @@ CONSTANTS
   NumRetries = {0, 5}
   Defects = {"StatusListIgnored"}
 SPECIFICATION Spec
-INVARIANTS ActionsAppliedOnce AttemptsBounded FreshHost RetryMade ReplyIsLast
+INVARIANTS WithinGlobalTimeout ActionsAppliedOnce AttemptsBounded FreshHost RetryMade ReplyIsLast
 PROPERTY RetryOnlyIfConfigured
 CHECK_DEADLOCK FALSE
